@@ -46,6 +46,14 @@ def gen(tier, seed):
         cmds.append(("breaklist",))
         cmds.append(("exit",))
         specs.append(("fixed", 0, src, [], cmds))
+        # the same view later in a session: after stepping, eval, move, reset, repeated
+        for pre in ([("stepinto", 2)], [("reset",)], [("stepinto", 1), ("reset",)], [("eval", "add r0 r0 #1")],
+                    [("move", ("reg", 1), 5), ("reset",), ("reset",)], [("continue",)], [("continue",), ("reset",)]):
+            cm = list(pre)
+            for name in LABELS[:12]:
+                cm += [("assembly", ("label", name, 0)), ("print", ("mem", ("label", name, 0))), ("breakadd", ("label", name, 0))]
+            cm += [("assembly", ("addr", orig)), ("assembly", ("addr", orig + 1)), ("breaklist",), ("exit",)]
+            specs.append(("later-in-session", 0, src, [], cm))
     import asmgen
     n = 250 if tier == "quick" else 8000
     for i in range(n):
